@@ -132,4 +132,9 @@ theorem unsafe_table_crashes :
   · decide +kernel
   · decide +kernel
 
+/-- the lexer rules of `sievelib/parser.py` (names, order, patterns, flags, white space) are the modelled ones -/
+theorem lexer_is_the_modelled_one :
+    Generated.lexRuleNames = TokKind.all.map TokKind.name ∧ Generated.lexRulePatterns = TokKind.patterns ∧
+      Generated.parserPatterns = TokKind.auxPatterns := by decide
+
 end C02
